@@ -478,7 +478,7 @@ def cowsplit_cases():
 #      it is `?`; what IEEE says is kept on the model side (correspondence only).
 #  (b) every other history (special doubles inside lists / arrays / maps, at any depth, copied, compared,
 #      reassigned; round 5): the extracted Spec/Model is run on the case with each infinity replaced by a
-#      finite stand-in that no generator produces (+-9007199254740989 * 2^970) and -0 by 0, and the stand-in is
+#      finite stand-in that no generator produces (+-9007199254740989 * 2^12, above 2^64) and -0 by 0, and the stand-in is
 #      renamed in the answer.  This is exact because no operation branches on a scalar's value and the stand-in
 #      agrees with the infinity on everything observed except its name and its %f text: toBool true, every
 #      float -> integer cast undefined, equal to itself and to nothing else that is generated (strings reading as
@@ -500,8 +500,8 @@ COMPANIONS = ['n', 'b0', 'b1', 'i0', 'i1', 'i-1', 'i2147483647', 'u0', 'u4294967
               'd9007199254740991_971', 'd-9007199254740991_971']
 TYPECODE = {'n': 0, 'b': 1, 'd': 2, 'i': 3, 'u': 4, 'I': 5, 'U': 6}
 STANDIN_M = 9007199254740989
-STANDIN = {'dinf': 'd%d_970' % STANDIN_M, 'd-inf': 'd-%d_970' % STANDIN_M}
-STANDIN_TEXT = hexs(('%d.000000' % (STANDIN_M * 2 ** 970)).encode())
+STANDIN = {'dinf': 'd%d_12' % STANDIN_M, 'd-inf': 'd-%d_12' % STANDIN_M}      # 3.7e19 > 2^64: every integer cast undefined
+STANDIN_TEXT = hexs(('%d.000000' % (STANDIN_M * 2 ** 12)).encode())
 NEGZERO_MARK = 'd-3_-1074'
 ROOT_OPS = ('sets', 'csets', 'assign', 'copynew', 'swap', 'clear')
 
